@@ -654,3 +654,27 @@ package carddav
 //@   loop 1 invariant I1: fresh(l) && len(l) <= #i && ms != nil && *ms == decoded(xmlDecoderOf(doResp(c.ic.http, lastReq).Body), "internal.MultiStatus") && doCalls == old(doCalls) + 1 && lastErr(c.ic) == nil && lastStatus(c.ic) == 207
 //@   |   && sentMethod == "PROPFIND" && sentPath == addressBookHomeSet && hget(hv, lastReq.Header, "Depth") == "1"
 //@   loop 1 invariant I2: forall j int :: 0 <= j && j < #i ==> !respFailedV(ms.Responses[j])
+
+//@ -- REPORT bodies (C09, C13): encoding/xml calls reportReq.UnmarshalXML with the root element; the root name alone selects
+//@ -- the request kind, the element is decoded into a fresh request struct of that kind, any other root is an error
+//@ -- (answered 400 by DecodeXMLRequest) that leaves the target untouched
+//@ spec isAbQueryRoot(n xml.Name) bool = n.Space == "urn:ietf:params:xml:ns:carddav" && n.Local == "addressbook-query"
+//@ spec isAbMultigetRoot(n xml.Name) bool = n.Space == "urn:ietf:params:xml:ns:carddav" && n.Local == "addressbook-multiget"
+//@ func carddav.(*reportReq).UnmarshalXML(r, d, start) (err)
+//@   requires R1: r != nil && d != nil
+//@   allocates
+//@   assigns H_carddav_reportReq_Query, H_carddav_reportReq_Multiget, ghost:deLast, ghost:deStart
+//@   ensures X1: isAbQueryRoot(start.Name) ==> r.Query != nil && fresh(r.Query) && r.Multiget == old(r.Multiget) && dynPtr(deLast, "*addressbookQuery") == r.Query && deStart.Name == start.Name
+//@   ensures X2: isAbMultigetRoot(start.Name) ==> r.Multiget != nil && fresh(r.Multiget) && r.Query == old(r.Query) && dynPtr(deLast, "*addressbookMultiget") == r.Multiget && deStart.Name == start.Name
+//@   ensures X3: !isAbQueryRoot(start.Name) && !isAbMultigetRoot(start.Name) ==> err != nil && r.Query == old(r.Query) && r.Multiget == old(r.Multiget) && deLast == old(deLast)
+//@   ensures X4: forall q *reportReq :: q != r && old(allocated(q)) ==> q.Query == old(q.Query) && q.Multiget == old(q.Multiget)
+
+//@ -- C14: HasSupport succeeds only after a 2xx OPTIONS answer; a transport failure or a non-2xx status is reported with its status
+//@ func carddav.(*Client).HasSupport(c, ctx) (err)
+//@   requires R1: cclientOKCar(c)
+//@   allocates
+//@   assigns ghost:data, ghost:doCalls, ghost:lastReq, ghost:nrCalls, ghost:nrMethod, ghost:nrURL, ghost:nrReq
+//@   ensures E1: doCalls == old(doCalls) ==> err != nil
+//@   ensures E2: doCalls == old(doCalls) + 1 ==> (lastErr(c.ic) != nil ==> err == lastErr(c.ic)) && (lastErr(c.ic) == nil && lastStatus(c.ic) / 100 != 2 ==> err != nil && dynHTTP(err) && httpCode(err) == lastStatus(c.ic))
+//@   ensures E3: doCalls == old(doCalls) || doCalls == old(doCalls) + 1
+//@   ensures E4: err == nil ==> doCalls == old(doCalls) + 1 && lastErr(c.ic) == nil && lastStatus(c.ic) / 100 == 2 && nrMethod == "OPTIONS"
